@@ -23,6 +23,8 @@ def run(ctx, rep) -> None:
     scs = []
     for p in PROFILES:
         scs += H.gen_scenarios(ctx.seed, n // len(PROFILES), p)
+    # the histories in which F30 was found (a finalizer removal decided on an unmatched view, 422, carried into a matching one)
+    scs += [sc_ for sc_ in H.gen_scenarios(0, 1700, 'finalizer') if sc_['id'] in ('finalizer-0-577', 'finalizer-0-1641')]
     _family.run_traces(rep, scs, '+'.join(PROFILES), nontrivial=lambda f: bool(f & FEATURES))
     # daemons and timers hold the finalizer too: the daemon histories of C09, judged by DaemonMonitor.tla
     # (clause: the finalizer is not withdrawn under a live matching daemon before backoff + timeout have passed)
